@@ -64,8 +64,8 @@ func (m *metrics) IncAcquireAttempts(l prometheus.Labels) { m.rec("acquire", 0, 
 func (m *metrics) IncTokenValidationFailures(prometheus.Labels) {
 	m.rec("tokfail", 0, "", "", "")
 }
-func (m *metrics) ObserveHeartbeatDuration(d time.Duration, l prometheus.Labels) {}
-func (m *metrics) ObserveLeaderDuration(d time.Duration, l prometheus.Labels)    {}
+func (m *metrics) ObserveHeartbeatDuration(d time.Duration, l prometheus.Labels) { m.o.s.yield() }
+func (m *metrics) ObserveLeaderDuration(d time.Duration, l prometheus.Labels)    { m.o.s.yield() }
 
 // ---- Logger -----------------------------------------------------------------------
 
